@@ -134,6 +134,24 @@ pub trait IntResAlias {
     fn ira_io(&self, code: i32) -> AliasRes<u64, std::io::Error>;
     #[no_int_result]
     fn ira_plain(&self, code: i32) -> AliasRes<u64, u32>;
+    /// spelled with the plain `Result`, not with the alias the attribute names: crosses as it is,
+    /// so both fields of the error survive (its integer coding would keep only one)
+    fn ira_other(&self, code: i32) -> Result<u64, TwoErr>;
+}
+
+/// An error whose integer coding is lossy.
+#[derive(Debug, PartialEq, Eq, Clone, Copy)]
+pub struct TwoErr {
+    pub code: i32,
+    pub detail: i32,
+}
+impl IntError for TwoErr {
+    fn into_int_err(self) -> core::num::NonZeroI32 {
+        core::num::NonZeroI32::new(if self.code == 0 { 0x7777 } else { self.code }).unwrap()
+    }
+    fn from_int_err(err: core::num::NonZeroI32) -> Self {
+        TwoErr { code: err.get(), detail: 0 }
+    }
 }
 
 /// No trait-level attribute: one method opts into integer results, the next one must not inherit it.
@@ -151,6 +169,11 @@ pub trait IntResMixed {
 #[cglue_trait]
 pub trait Attrs {
     fn at_first(&self, v: u64) -> u64;
+    /// generic method with a default body: not exported (it has no slot), the opaque object runs
+    /// this body; everything declared after it must still get its slot and its override
+    fn at_generic<T: Into<u64>>(&self, v: T) -> u64 {
+        self.at_first(v.into() ^ 0x99)
+    }
     #[skip_func]
     fn at_skipped(&self) -> u64 {
         77
@@ -653,6 +676,10 @@ macro_rules! implementor {
             fn ira_plain(&self, code: i32) -> AliasRes<u64, u32> {
                 self.core.enter("ira_plain", code as u64, &[]);
                 if code != 0 { Err(code as u32) } else { Ok(self.core.mix(18)) }
+            }
+            fn ira_other(&self, code: i32) -> Result<u64, TwoErr> {
+                self.core.enter("ira_other", code as u64, &[]);
+                if code != 0 { Err(TwoErr { code, detail: code.wrapping_mul(3) + 1 }) } else { Ok(self.core.mix(19)) }
             }
         }
 
